@@ -1,5 +1,6 @@
 import SSVerif.Model.S3file
 import SSVerif.Model.BinMdef
+import SSVerif.Model.Assembly
 import Driver.Util
 /-! driver sub-command `c17`: runs the byte reader / read plans of `Model/S3file` on byte strings
 (hex or a file with an edit list) — same line protocol as `harness/h_c17.c s3`. -/
@@ -175,6 +176,20 @@ def runCase (cache : IO.Ref Cache) (ws : List String) : IO String := do
         let h := o.hdr; let l := o.lay
         s!"ok {b2s h.swap} {h.nCiphone} {h.nPhone} {h.nEmit} {h.nCiSen} {h.nSen} {h.nTmat} {h.nSseq} {h.nCdTree} {o.sil} {l.treeOff - h.dataOff} {l.phoneOff - h.dataOff} {l.sseqOff - h.dataOff} {mapHash o.cd2cisen} {mapHash o.sen2cimap}"} | site={site r}"
     | none => pure s!"{id} bad-src"
+  | [id, "sen", src, ed] =>
+    match ← loadSrc cache src ed with
+    | some s =>
+      let r := senMixwPlan s.file
+      pure s!"{id} {showRes r fun o => s!"ok {o.nSen} {o.nFeat} {o.nCw}"} | site={site r}"
+    | none => pure s!"{id} bad-src"
+  | [id, "am", ct, streams, ms, me, ts, te, mns, mne, vs, ve, kind, xs, xe] =>
+    let sl := (streams.splitOn ",").filterMap String.toNat?
+    match ← loadSrc cache ms me, ← loadSrc cache ts te, ← loadSrc cache mns mne, ← loadSrc cache vs ve, ← loadSrc cache xs xe with
+    | some m, some t, some mn, some v, some x =>
+      let src := if kind = "sd" then MixSrc.sendump x.file else MixSrc.mixw x.file
+      let r := acmodLoadPlan m.file t.file mn.file v.file src sl (ct = "1")
+      pure s!"{id} {showRes r fun o => match o with | .ptm => "ok ptm" | .s2 => "ok s2_semi" | .ms => "ok ms"} | site={site r}"
+    | _, _, _, _, _ => pure s!"{id} bad-src"
   | id :: _ => pure s!"{id} bad-op"
   | [] => pure "bad-op"
 
